@@ -10,6 +10,7 @@ import inspect
 import io
 import keyword
 import logging
+import operator
 import sys
 import time
 import traceback
@@ -92,6 +93,26 @@ WEBHOOK_METHODS = {
     "HEAD",
     "POST",
     "PUT",
+}
+
+
+#
+# In-place operators used by augmented assignment
+#
+AUGASSIGN_OPS = {
+    ast.Add: operator.iadd,
+    ast.Sub: operator.isub,
+    ast.Mult: operator.imul,
+    ast.MatMult: operator.imatmul,
+    ast.Div: operator.itruediv,
+    ast.Mod: operator.imod,
+    ast.Pow: operator.ipow,
+    ast.LShift: operator.ilshift,
+    ast.RShift: operator.irshift,
+    ast.BitOr: operator.ior,
+    ast.BitXor: operator.ixor,
+    ast.BitAnd: operator.iand,
+    ast.FloorDiv: operator.ifloordiv,
 }
 
 
@@ -1429,10 +1450,31 @@ class AstEval:
 
     async def ast_augassign(self, arg):
         """Execute augmented assignment statement (lhs <BinOp>= value)."""
-        arg.target.ctx = ast.Load()
-        new_val = await self.aeval(ast.BinOp(left=arg.target, op=arg.op, right=arg.value))
-        arg.target.ctx = ast.Store()
-        await self.recurse_assign(arg.target, new_val)
+        #
+        # the target's sub-expressions are evaluated once, then the old value is
+        # read, then the rhs is evaluated and the in-place operator applied
+        #
+        inplace_op = AUGASSIGN_OPS.get(type(arg.op))
+        if inplace_op is None:
+            await self.ast_not_implemented(arg.op)
+        target = arg.target
+        if isinstance(target, ast.Subscript):
+            var = await self.aeval(target.value)
+            idx = await self.aeval(target.slice)
+            old_val = var[idx]
+            var[idx] = inplace_op(old_val, await self.aeval(arg.value))
+            return
+        if isinstance(target, ast.Attribute) and await self.ast_attribute_collapse(target) is None:
+            obj = await self.aeval(target.value)
+            old_val = getattr(obj, target.attr)
+            setattr(obj, target.attr, inplace_op(old_val, await self.aeval(arg.value)))
+            return
+        target.ctx = ast.Load()
+        try:
+            old_val = await self.aeval(target)
+        finally:
+            target.ctx = ast.Store()
+        await self.recurse_assign(target, inplace_op(old_val, await self.aeval(arg.value)))
 
     async def ast_annassign(self, arg):
         """Execute type hint assignment statement and track __annotations__."""
